@@ -301,6 +301,25 @@ func (s *st) pickOut(mode string, wantDeg, lmin, allocLvl int, op0 *ent, op1 *en
 		if op1 != nil && op1.ct != nil {
 			return outSel{mode: mode, ct: op1.ct, lvl: op1.level()}
 		}
+	case "large", "small":
+		// a used receiver whose degree differs from the degree of the result: one more component
+		// (stale data in it must not survive) or one less (the receiver has to grow)
+		deg := wantDeg + 1
+		if mode == "small" {
+			deg = wantDeg - 1
+		}
+		if deg >= 1 && deg <= 2 {
+			lvl := lmin
+			switch s.rnd.N(4) {
+			case 0:
+				lvl = s.params.MaxLevel()
+			case 1:
+				if lmin > s.lcpr {
+					lvl = lmin - 1
+				}
+			}
+			return outSel{mode: mode, ct: s.dirtyCt(deg, lvl), lvl: lvl}
+		}
 	case "garbage":
 		var cands []*ent
 		for _, e := range s.pool {
@@ -324,6 +343,23 @@ func (s *st) pickOut(mode string, wantDeg, lmin, allocLvl int, op0 *ent, op1 *en
 		}
 	}
 	return outSel{mode: "fresh", ct: ckks.NewCiphertext(s.params, wantDeg, lvl), lvl: lvl}
+}
+
+// dirtyCt is a receiver that has been used before: uniform coefficients in every component, an
+// unrelated scale and slot count.
+func (s *st) dirtyCt(deg, lvl int) *rlwe.Ciphertext {
+	ct := ckks.NewCiphertext(s.params, deg, lvl)
+	for i := range ct.Value {
+		for j, row := range ct.Value[i].Coeffs {
+			for k := range row {
+				row[k] = s.rnd.U64() % s.q[j]
+			}
+		}
+	}
+	ct.Scale = rlwe.NewScale(fmul(s.defScale, fF(0.37+s.rnd.F64())))
+	ct.LogDimensions.Cols = s.rnd.N(s.logMax + 1)
+	s.c.Count("dirty_receivers_other_degree", 1)
+	return ct
 }
 
 func rel(a, b *big.Float) string {
@@ -441,6 +477,9 @@ func (s *st) binary(op string, a *ent, b *operand, mode string) (res *ent, skipp
 	mode = out.mode
 	ex.level = min(lmin, out.lvl)
 	lvl := ex.level
+	if mode == "large" {
+		ex.degMax = out.ct.Degree()
+	}
 
 	// value / scale / budget model
 	switch {
@@ -565,7 +604,7 @@ func (s *st) binary(op string, a *ent, b *operand, mode string) (res *ent, skipp
 		srel = rel(s0, s1)
 	}
 	ex.key = fmt.Sprintf("%s|%s/%s|out=%s|s:%s|%s|d%d%d|%s", op, b.kind, b.cls, mode, srel, lrel(l0, l1), d0, d1, s.slotClass(ex.logSlots))
-	ex.nontriv = b.kind != "ct" || srel != "eq" || l0 != l1 || mode != "fresh" && mode != "new" || d0 > 1 || d1 > 1 || ex.logSlots != s.logMax || b.e == a
+	ex.nontriv = b.kind != "ct" || srel != "eq" || l0 != l1 || mode != "fresh" && mode != "new" || d0 > 1 || d1 > 1 || ex.logSlots != s.logMax || (b.e != nil && b.e == a)
 	s.note("%s(%s,%s:%s)->%s", op, s.nameOf(a), b.kind, srel, mode)
 
 	var arg rlwe.Operand
@@ -845,6 +884,9 @@ func (s *st) rescale(a *ent, mode string) (res *ent, skipped bool) {
 	if out.mode == "new" {
 		out = s.pickOut("fresh", a.deg(), l0, l0, a, nil)
 	}
+	if out.mode == "large" {
+		ex.degMax = out.ct.Degree()
+	}
 	ex.key = s.unaryKey("Rescale", out.mode, a, fmt.Sprintf("outl%s", lrel(out.lvl, l0)))
 	ex.nontriv = out.mode != "fresh" || a.deg() != 1 || a.depth >= 1 || a.logSlots() != s.logMax
 	s.note("Rescale(%s)->%s", s.nameOf(a), out.mode)
@@ -891,6 +933,9 @@ func (s *st) rescaleTo(a *ent, minScale *big.Float, mode, cls string) (res *ent,
 	out := s.pickOut(mode, a.deg(), l0, l0, a, nil)
 	if out.mode == "new" {
 		out = s.pickOut("fresh", a.deg(), l0, l0, a, nil)
+	}
+	if out.mode == "large" {
+		ex.degMax = out.ct.Degree()
 	}
 	ex.key = s.unaryKey("RescaleTo", out.mode, a, fmt.Sprintf("%s/nb%d", cls, nb))
 	ex.nontriv = true
@@ -949,6 +994,9 @@ func (s *st) scaleUp(a *ent, k uint64, mode string) (res *ent, skipped bool) {
 	ex := &expect{op: "ScaleUp", logSlots: a.logSlots(), depth: a.depth, uneq: true, want: a.want, deg: a.deg(), scale: fmul(s0, fU(k)), B: a.E}
 	out := s.pickOut(mode, a.deg(), l0, l0, a, nil)
 	ex.level = min(l0, out.lvl)
+	if out.mode == "large" {
+		ex.degMax = out.ct.Degree()
+	}
 	if !s.fits(ex.scale, a.mag+a.E, ex.level) {
 		return nil, true
 	}
@@ -1010,6 +1058,9 @@ func (s *st) relin(a *ent, mode string) (res *ent, skipped bool) {
 	}
 	ex := &expect{op: "Relinearize", logSlots: a.logSlots(), depth: a.depth, uneq: a.uneq, want: a.want, deg: 1, scale: a.scale()}
 	ex.level = min(l0, out.lvl)
+	if out.mode == "large" {
+		ex.degMax = out.ct.Degree()
+	}
 	if !s.fits(ex.scale, a.mag+a.E, ex.level) {
 		return nil, true
 	}
@@ -1057,12 +1108,30 @@ func (s *st) rotate(a *ent, k int, conj bool, mode string) (res *ent, skipped bo
 	}
 	l0 := a.level()
 	out := s.pickOut(mode, 1, l0, l0, a, nil)
+	if out.mode == "large" {
+		// documented (rlwe.Evaluator.Automorphism): an error when the receiver is not of degree 1
+		s.refuse(op, "receiver-degree-2", func() error {
+			if conj {
+				return s.eval.Conjugate(a.ct, out.ct)
+			}
+			return s.eval.Rotate(a.ct, k, out.ct)
+		}, a.ct.El())
+		return nil, true
+	}
 	ex := &expect{op: op, logSlots: a.logSlots(), depth: a.depth, uneq: a.uneq, deg: 1, scale: a.scale()}
 	ex.level = min(l0, out.lvl)
+	identity := !conj && s.params.GaloisElement(k) == 1
+	if identity {
+		// a rotation by a multiple of the slot count is a plain copy: no key, no noise; the copy may
+		// keep the level of the input whatever the level of the receiver was
+		ex.lvlAlt, ex.hasAlt = l0, true
+	}
 	if !s.fits(ex.scale, a.mag+a.E, ex.level) {
 		return nil, true
 	}
-	ex.added = s.ks[ex.level] / f64(ex.scale)
+	if !identity {
+		ex.added = s.ks[ex.level] / f64(ex.scale)
+	}
 	ex.B = a.E + ex.added
 	if conj {
 		ex.want = vmap(a.want, func(x cx) cx { return x.conj() })
@@ -1125,6 +1194,50 @@ func (s *st) rotateHoisted(a *ent, ks []int) {
 		if r := s.judge(ex, outs[k]); r != nil {
 			s.pool = append(s.pool, r)
 		} else {
+			s.dead = true
+		}
+	}
+}
+
+// rotateHoistedInto: RotateHoisted with receivers supplied by the caller (new, at a higher level, or
+// used before); ks may contain 0 and multiples of the slot count (plain copies).
+func (s *st) rotateHoistedInto(a *ent, ks []int) {
+	if a.deg() != 1 {
+		return
+	}
+	outs := map[int]*rlwe.Ciphertext{}
+	var u []int
+	for _, k := range ks {
+		if _, ok := outs[k]; ok {
+			continue
+		}
+		u = append(u, k)
+		switch s.rnd.N(3) {
+		case 0:
+			outs[k] = ckks.NewCiphertext(s.params, 1, a.level())
+		case 1:
+			outs[k] = ckks.NewCiphertext(s.params, 1, s.params.MaxLevel())
+		default:
+			outs[k] = s.dirtyCt(1, s.randLevel(a.level()))
+		}
+	}
+	ks = u
+	ex0 := &expect{op: "RotateHoisted", key: "RotateHoisted/into"}
+	s.note("RotateHoisted(%s,%v)", s.nameOf(a), ks)
+	if !s.call(ex0, func() error { return s.eval.RotateHoisted(a.ct, ks, outs) }) {
+		s.dead = true
+		return
+	}
+	for _, k := range ks {
+		ex := &expect{op: "RotateHoisted", logSlots: a.logSlots(), depth: a.depth, uneq: a.uneq, deg: 1, scale: a.scale(), level: a.level()}
+		ex.B = a.E
+		if s.params.GaloisElement(k) != 1 {
+			ex.B += s.ks[ex.level] / f64(ex.scale)
+		}
+		ex.want = rotVec(a.want, k)
+		ex.key = s.unaryKey("RotateHoisted", "into", a, fmt.Sprint(k))
+		ex.nontriv = true
+		if r := s.judge(ex, outs[k]); r == nil {
 			s.dead = true
 		}
 	}
